@@ -639,7 +639,9 @@ func (g *Gen) bareIteratorFor() []Stmt {
 		&SLocalFunc{Name: it, F: &Func{Params: []string{"s", "c"}, Body: Blk(
 			CallSN("emit", Str("itargs"), N("s"), N("c")),
 			Assign1(N(cnt), Bin("+", N(cnt), Num(1))),
-			&SIf{Conds: []Expr{Bin("<=", N(cnt), Num(2))}, Blocks: []*Block{Blk(Return(N(cnt), Bin("*", N(cnt), Num(10))))}},
+			// the loop ends only on nil: false as first value keeps it going
+			&SIf{Conds: []Expr{Bin("==", N(cnt), Num(1))}, Blocks: []*Block{Blk(Return(&EFalse{}, Num(5)))}},
+			&SIf{Conds: []Expr{Bin("<=", N(cnt), Num(3))}, Blocks: []*Block{Blk(Return(N(cnt), Bin("*", N(cnt), Num(10))))}},
 		)}},
 		&SDo{Body: Blk(&SLocal{Names: []string{g.fresh("j"), g.fresh("j"), g.fresh("j"), g.fresh("j")}, Exprs: []Expr{Num(11), Num(22), Num(33), Num(44)}})},
 		&SGenFor{Names: names, Exprs: []Expr{N(it)}, Body: Blk(CallSN("emit", Str("bare"), N(names[0])))},
